@@ -146,7 +146,8 @@ def rustc_derive(cases, name):
     shutil.copy(os.path.join(REPO, "Cargo.lock"), os.path.join(crate, "Cargo.lock"))
     with open(os.path.join(crate, "src", "main.rs"), "w") as f:
         f.write(src_all)
-    p = subprocess.run(["cargo", "build", "--offline", "--message-format=json", "--target-dir", os.path.join(WORK, "target-subj-tc")],
+    from pipeline import alt_tag
+    p = subprocess.run(["cargo", "build", "--offline", "--message-format=json", "--target-dir", os.path.join(WORK, "target-subj-tc" + alt_tag())],
                        cwd=crate, env=ENV_BASE, capture_output=True, text=True)
     out = {cid: {"panicked": False, "errors": []} for cid, _ in cases}
     seen_any = False
@@ -344,7 +345,8 @@ _cli_bin = None
 def build_cli():
     global _cli_bin
     if _cli_bin is None:
-        tdir = os.path.join(WORK, "target-cli")
+        from pipeline import alt_tag
+        tdir = os.path.join(WORK, "target-cli" + alt_tag())
         run(["cargo", "build", "-p", "logos-cli", "--offline", "--target-dir", tdir], cwd=REPO, timeout=3600)
         _cli_bin = os.path.join(tdir, "debug", "logos-cli")
     return _cli_bin
